@@ -795,11 +795,13 @@ private:
             // try_call API is not convenient here due to broken
             // variadic capture on GCC 4.8.5
             auto value_guard = make_raii_guard( [&] {
-                segment_index_type last_allocated_segment = this->find_last_allocated_segment(table);
-                size_type segment_size = this->segment_size(last_allocated_segment);
-                end_idx = end_idx < segment_size ? end_idx : segment_size;
+                // Zero-fill the elements of [idx, end_idx) that were not constructed, but only in segments
+                // that were really allocated: segments between allocated ones may still be missing.
+                segment_table_type current_table = this->get_table();
                 for (size_type i = idx; i < end_idx; ++i) {
-                    zero_unconstructed_elements(&this->internal_subscript(i), /*count =*/1);
+                    if (current_table[this->segment_index_of(i)].load(std::memory_order_relaxed) > this->segment_allocation_failure_tag) {
+                        zero_unconstructed_elements(&this->internal_subscript(i), /*count =*/1);
+                    }
                 }
             });
             segment_table_allocator_traits::construct(base_type::get_allocator(), element_address, args...);
@@ -814,11 +816,13 @@ private:
             try_call( [&] {
                 segment_table_allocator_traits::construct(base_type::get_allocator(), element_address, *first++);
             } ).on_exception( [&] {
-                segment_index_type last_allocated_segment = this->find_last_allocated_segment(table);
-                size_type segment_size = this->segment_size(last_allocated_segment);
-                end_idx = end_idx < segment_size ? end_idx : segment_size;
+                // Zero-fill the elements of [idx, end_idx) that were not constructed, but only in segments
+                // that were really allocated: segments between allocated ones may still be missing.
+                segment_table_type current_table = this->get_table();
                 for (size_type i = idx; i < end_idx; ++i) {
-                    zero_unconstructed_elements(&this->internal_subscript(i), /*count =*/1);
+                    if (current_table[this->segment_index_of(i)].load(std::memory_order_relaxed) > this->segment_allocation_failure_tag) {
+                        zero_unconstructed_elements(&this->internal_subscript(i), /*count =*/1);
+                    }
                 }
             });
         }
